@@ -21,7 +21,7 @@ func init() {
 			"in the method itself or, for helpers, at every call site. R2: each ProcessBuiltinFunction of those types takes the read lock before the first guarded read and releases it only by the deferred call (so one execution sees one schedule); " +
 			"SetNewGasConfig writes all guarded fields inside one write-locked region. R3: every MutexMap method has exactly one locked region containing all accesses to the map, and each container method's result flows from a single MutexMap call. " +
 			"R4: the value fields of package atomic are touched only through sync/atomic (or atomic.Value methods); no method pairs an atomic load with a later atomic store of the same field. R5: all other fields of the function objects are written only by " +
-			"their constructor (listed exception: the payable handler, configuration time). Does NOT decide: linearizability of recorded histories as such, the race detector's dynamic view.",
+			"their constructor (listed exception: the payable handler, configuration time). R1 also covers state-holding fields touched through methods called on their address (atomic values, sync.Map, the module's atomic wrappers): written under the lock somewhere means guarded; a lock-free atomic read is accepted, an atomic write outside every critical section is reported (a snapshot published after the unlock races with the invalidation under the write lock). Does NOT decide: linearizability of recorded histories as such, the race detector's dynamic view.",
 		Trusted: []string{"sync.RWMutex and sync/atomic semantics", "objects are published to other goroutines only after their constructor returned"},
 		Rules:   []func(*Ctx){c19r1, c19r3, c19r4, c19r5, c19r6, c19r7},
 	})
